@@ -204,7 +204,7 @@ pub fn gen_url(rng: &mut Rng, n: usize, out: &mut Vec<String>) {
         let base = format!("{}={},dc={}", rng.pick(&["cn", "ou", "uid"]), rand_unicode(rng), rand_unicode(rng));
         let filt = String::from_utf8_lossy(&rand_filter(rng, 2, false)).into_owned();
         let attrs: Vec<String> = (0..1 + rng.below(4)).map(|_| rng.pick(&["cn", "sn", "*", "+", "1.1", "mail;lang-en", "2.5.4.3", "jpegPhoto;binary"]).to_string()).collect();
-        let scope = *rng.pick(&["base", "one", "sub"]);
+        let scope = *rng.pick(&["base", "one", "sub", "base", "one", "sub", "Base", "ONE", "Sub", "sUB"]);   // the words are ABNF literals: any case (F35)
         let kinds = ["bindname", "x-bindpw", "1.3.6.1.4.1.10094.1.5.1", "1.3.6.1.4.1.10094.1.5.2", "1.3.6.1.4.1.1466.20037", "x-unknown", "1.2.3.4", "BindName", "X-BINDPW", "bindname2", "x-bindpw-sha256", "bindnam", "x-bind", "BINDNAMES"];
         // 0-3 extensions as a rule; one URL in twelve lists all five recognised ones first and something else after them
         let nex = if i % 12 == 5 { 5 + 1 + rng.below(3) as usize } else { rng.below(4) as usize };
@@ -230,7 +230,7 @@ pub fn gen_url(rng: &mut Rng, n: usize, out: &mut Vec<String>) {
             push(v, "policy=hostile", out);
         }
     }
-    for w in ["ldap://h/", "ldap://h", "ldap:///dc=x??sub", "ldap://h/?*,%2B", "ldap://h/dc=x????", "ldap://h//dc=x", "ldap://h/dc=x?cn?base?(objectClass=*)?!1.3.6.1.4.1.1466.20037"] { push(w.to_string(), "policy=corpus", out); }
+    for w in ["ldap://h/", "ldap://h", "ldap:///dc=x??sub", "ldap://h/?*,%2B", "ldap://h/dc=x????", "ldap://h//dc=x", "ldap://h/dc=x?cn?base?(objectClass=*)?!1.3.6.1.4.1.1466.20037", "ldap://h/dc=x?cn?SUB", "ldap://h/dc=x??Base?(cn=a)", "ldap://h/dc=x?cn?oNe", "ldap://h/dc=x?cn?subs", "ldap://h/dc=x?cn?BASES"] { push(w.to_string(), "policy=corpus", out); }
 }
 
 // ------------------------------------------------------------------------------------------------ execution
@@ -407,7 +407,7 @@ fn url_oracle(u: &str, got: &str) -> Option<String> {
     let base = match pdec(dn) { None => return None, Some(Err(())) => { want_err = Some("utf8"); String::new() } Some(Ok(s)) => s };
     let mut alist = vec![];
     if want_err.is_none() { if attrs.is_empty() { alist.push("*".to_string()); } else { for a in attrs.split(',') { match pdec(a) { None => return None, Some(Err(())) => return None, Some(Ok(s)) => alist.push(s) } } } }
-    let sc = if want_err.is_some() { "" } else { match scope { "" | "sub" => "sub", "base" => "base", "one" => "one", _ => { want_err = Some("scope"); "" } } };
+    let sc = if want_err.is_some() { "" } else { match scope.to_ascii_lowercase().as_str() { "" | "sub" => "sub", "base" => "base", "one" => "one", _ => { want_err = Some("scope"); "" } } };
     let filter = if want_err.is_some() { String::new() } else { match pdec(if filt.is_empty() { "(objectClass=*)" } else { filt }) { None => return None, Some(Err(())) => { want_err = Some("utf8"); String::new() } Some(Ok(s)) => s } };
     let mut ex: Vec<String> = vec![]; let mut seen = std::collections::HashSet::new();
     if want_err.is_none() && !exts.is_empty() {
